@@ -8,7 +8,8 @@
 //!   `@@ <index> P=<r> C1=<r> C2=<r> I=<r> V=<r> M=<r> R=<r>`  with r one of
 //!      ok | err:<kind> | panic:<hex message> | -          (`-` = step not applicable)
 //!   P parse; C1 compile(debug, stub_ffi); C2 compile(no debug, FFI schemas); I compile_interface;
-//!   V validate(module); M Machine::from_module; R Display of every error value (informational).
+//!   V validate(module); M Machine::from_module; R Display of every error value (informational);
+//!   FM (mode D) 1 when the front-matter guard rejected the document ("Front matter is not terminated"), else 0.
 //!   `@@SHAPE <rule> <child,child,...>` / `@@TOP <entry> <child,...>`: the distinct pair-tree shapes
 //!   pest produced for the same grammar file (own `pest_derive` instance of policy.pest).
 //! `--grammar-dump`: print pest_meta's reading of policy.pest in the canonical form that
@@ -223,12 +224,21 @@ fn main() {
             }
         };
         let mut render = vec![];
+        // D mode: did the front-matter guard reject the document? (compared with the Coq model of the guard)
+        let mut fm = "-".to_string();
         let (mut c1, mut c2, mut ci, mut v, mut m) = ("-".to_string(), "-".to_string(), "-".to_string(), "-".to_string(), "-".to_string());
         let pk = |e: &aranya_policy_lang::lang::ParseError| word(format!("{:?}", e.kind));
         let p = match mode.as_str() {
             "D" | "S" => {
                 let (p, pol) = if mode == "D" {
-                    step(|| parse_policy_document(&text), pk, &mut render)
+                    let guard = std::cell::Cell::new(false);
+                    let r = step(
+                        || parse_policy_document(&text).inspect_err(|e| guard.set(e.message == "Front matter is not terminated")),
+                        pk,
+                        &mut render,
+                    );
+                    fm = if r.0.starts_with("panic") { "-".into() } else { (guard.get() as u8).to_string() };
+                    r
                 } else {
                     step(|| parse_policy_str(&text, Version::V2), pk, &mut render)
                 };
@@ -276,7 +286,7 @@ fn main() {
         }
         let r = if render.is_empty() { "ok".to_string() } else { format!("panic:{}", hex(&render[0])) };
         let mut o = out.lock();
-        writeln!(o, "@@ {idx} P={p} C1={c1} C2={c2} I={ci} V={v} M={m} R={r}").unwrap();
+        writeln!(o, "@@ {idx} P={p} C1={c1} C2={c2} I={ci} V={v} M={m} R={r} FM={fm}").unwrap();
         o.flush().unwrap();
     }
     let mut o = out.lock();
